@@ -129,6 +129,10 @@ func c10Extra(c *core.Check) {
 			if f.Key != storeGc && !strings.HasPrefix(f.Key, storeGc+"$") && !byExpiry && c10CalledUnderLimit(c, f, gcf) {
 				continue
 			}
+			// a helper of the pass that consults Expiry itself is examined at its own removal sites, not at its call
+			if cf != nil && cf.Body != nil && fieldUsed(cf.Info(), cf.Body, "metrics.LabelValue", "Expiry") {
+				continue
+			}
 			// a remove-oldest call (no tuple argument) belongs to the limit phase by construction
 			if len(call.Args) == 0 {
 				continue
@@ -136,6 +140,43 @@ func c10Extra(c *core.Check) {
 			n9++
 			key := fmt.Sprintf("%s|removal#%d", f.Key, n9)
 			c.Analysed(f)
+			if !byExpiry {
+				// not lexically under the test: is every path to the removal through a condition that consults Expiry
+				// (negated test with `continue`, early return, …)?
+				var conds []core.Point
+				core.InspectNoLit(f.Body, func(n ast.Node) bool {
+					var cond ast.Expr
+					var more []ast.Expr
+					switch x := n.(type) {
+					case *ast.IfStmt:
+						cond = x.Cond
+					case *ast.ForStmt:
+						cond = x.Cond
+					case *ast.SwitchStmt:
+						if x.Tag == nil {
+							for _, cl := range x.Body.List {
+								more = append(more, cl.(*ast.CaseClause).List...)
+							}
+						}
+					}
+					if cond != nil {
+						more = append(more, cond)
+					}
+					for _, cd := range more {
+						if c10CondUses(f, cd, "metrics.LabelValue", "Expiry") {
+							if p, ok := g.PointOf(cd); ok {
+								conds = append(conds, p)
+							}
+						}
+					}
+					return true
+				})
+				if len(conds) > 0 {
+					if _, free := pathAvoiding(g, nil, []core.Point{h.P}, conds); !free {
+						byExpiry = true
+					}
+				}
+			}
 			c.Verdict(byExpiry, "C10-R9", key, pos(c, call), "under an age-against-Expiry test", "a GC pass removes a label value at a point that is not under a test of that datum's Expiry: the decision was taken elsewhere (a list of expired tuples collected under an earlier hold of the lock), so a datum updated between the decision and the removal is deleted although it is live")
 		}
 	}
